@@ -40,6 +40,20 @@ META = {
 }
 
 
+def _w(depth, split, xtype, attr, mods, same=False):
+    return {"depth": depth, "fan": 1, "same": same, "wrap": 0, "nest": "lib", "split": split, "xtype": xtype, "xdims": 0,
+            "xpre": "", "ypre": "", "ieq": False, "attr": attr, "mods": mods, "clash": False, "shadow": False}
+
+
+# programs on which the as-built configuration must violate an invariant: one per known deviation
+ASBUILT_WITNESSES = [
+    _w(2, ["none", "none"], "Real", "start", [{"k": "comp", "i": 2, "e": "lit"}]),                      # dotted attribute -> value
+    _w(2, ["none", "none"], "Real", "min", [{"k": "comp", "i": 2, "e": "ref"}]),                        # inner scope
+    _w(1, ["none"], "aaR", "max", [{"k": "decl", "i": 1, "e": "lit"}]),                                 # alias of alias
+    _w(3, ["none", "none", "none"], "Real", "value", [{"k": "decl", "i": 1, "e": "ref"}], same=True),   # renamed again
+]
+
+
 def classify(prog, j, r, asbuilt):
     """-> (record | None, counter key)"""
     v = prog["variants"][j]
@@ -140,11 +154,16 @@ def run(ctx):
     if not stats.get("rejected:nested"):
         ctx.note_drift("no-nested-spelling-rejected-any-more")
     # the as-built configuration must make TLC itself report the property violation
-    _, ab_res = inst_run.run_spec(ctx, "Instantiate_C08_asbuilt.cfg", "as-built switches: TLC is expected to report a violation",
-                                  shards=1, expect_violation=True)
-    violated = sorted({v for r in ab_res for v in r.violated})
-    if not violated:
-        raise MachineryError("as-built configuration of Instantiate.tla no longer violates any invariant (switches out of date?)")
+    violated = {}
+    for k, w in enumerate(ASBUILT_WITNESSES):
+        _, ab_res = inst_run.run_file_family(ctx, "Instantiate_file_asbuilt.cfg", [w],
+                                             "as-built switches on witness program %d: TLC is expected to report a violation" % k,
+                                             shards=1, expect_violation=True)
+        v = sorted({x for r in ab_res for x in r.violated})
+        if not v:
+            raise MachineryError("as-built configuration of Instantiate.tla does not violate any invariant on witness %d "
+                                 "(switches out of date?)" % k)
+        violated["witness-%d" % k] = v
     # binding self-test: a corrupted expectation must be noticed
     p0 = copy.deepcopy(next(p for p, j, r in out if r["kind"] == "ok" and not r["diffs"] and j == 0
                             and any(s["attrs"] for s in p["expect"]["syms"] if isinstance(s["attrs"], dict) and len(s["attrs"]) and s["name"].endswith("x"))))
